@@ -203,6 +203,6 @@ Definition strict_head (s : bytes) : option (shead * nat) :=
   end.
 
 (* the reported value of a field: what follows the colon, leading whitespace removed *)
-Definition field_value (raw : bytes) : bytes := drop_while is_ascii_ws raw.
+Definition field_value (raw : bytes) : bytes := drop_while is_ows raw.
 Definition sfield_pairs (fs : list sfield) : list (bytes * bytes) :=
   map (fun f => (s_name f, field_value (s_raw f))) fs.
